@@ -82,10 +82,16 @@ export async function run(ctx) {
       const first = res.diagnostics?.[0];
       // (an AnyhowError carries its reason in the message only)
       const why = first && first.variant === "AnyhowError" ? ":" + String(first.message).replace(/^Internal Error: /, "").replace(/[:'"`].*$/, "").trim().split(/\s+/).slice(0, 4).join("-") : "";
-      // attribution by re-execution: does the program compile once every `typeof Enum` is spelled as the
-      // object type of the enum's members (what TypeScript means by it)?
+      // attribution by re-execution: re-spell one suspected ingredient and compile again; the cause is
+      // named when the program then compiles, or at least no longer shows the diagnostic it showed
       let cause = "";
+      const gone = (r2) => r2.parsers || (first && !(r2.res.diagnostics || []).some((d) => d.variant === first.variant));
+      const respell = async (f) => {
+        const prog2 = { decls: prog.decls.map((d) => A.mapDecl(d, f)), parsers: prog.parsers.map((q) => ({ ...q, t: A.mapType(q.t, f) })) };
+        return gone(await compileText(ctx, renderProgram(prog2)));
+      };
       if (prog && /typeof \(?E\d+/.test(text)) {
+        // every `typeof Enum` as the object type of the enum's members (what TypeScript means by it)
         const spell = (x) => {
           if (x.k !== "typeof" || !x.ofEnum) return x;
           const en = prog.decls.find((d) => d.d === "enum" && d.name === x.name);
@@ -94,9 +100,12 @@ export async function run(ctx) {
           for (const seg of x.path) t = t.props.find((q) => q.name === seg).t;
           return t;
         };
-        const prog2 = { decls: prog.decls.map((d) => A.mapDecl(d, spell)), parsers: prog.parsers.map((q) => ({ ...q, t: A.mapType(q.t, spell) })) };
-        const r2 = await compileText(ctx, renderProgram(prog2));
-        if (r2.parsers) cause = "|cause:typeof-enum-spelled-as-members-object-compiles";
+        if (await respell(spell)) cause = "|cause:typeof-enum-spelled-as-members-object-compiles";
+      }
+      if (!cause && prog && /\bnever\b/.test(text)) {
+        // an object type with a required `never` property has no values: the semantic engine reduces it to
+        // never, and an operator that needs an object (Omit, Pick, keyof, ...) over the result is refused
+        if (await respell((x) => (x.k === "kw" && x.name === "never" ? A.kw("null") : x))) cause = "|cause:never-spelled-as-null-compiles";
       }
       const sig = `rejected|${res.outcome}|${first ? first.variant + why : res.panic ? res.panic.file + ":" + res.panic.line : res.message || ""}${cause}`;
       ctx.violation({ signature: sig, clause: "supported-program-rejected", detail: (first ? first.message : JSON.stringify(res.panic || res.message || res.outcome)) + " in\n" + text, replay: { kind: "compile", text } });
